@@ -39,6 +39,45 @@ WHOLE_FILES = ["util/cache.py"]  # every executable line of the LRU cache
 
 _yield_cache = {}
 
+# module-level names that are process-global by construction but not per-render state
+_NOISE = {"__all__", "app_settings", "registry", "urlpatterns", "defaults", "register", "logger", "all_registries"}
+_IMMUTABLE_CALLS = {"compile", "TypeVar", "getLogger", "NewType", "namedtuple", "frozenset", "Library", "cast", "ParamSpec", "partial", "Lock", "RLock", "local", "object", "Signal"}
+
+
+def global_state_names(pkg):
+    """Names of module-level mutable objects of the library, found in its syntax tree (so that state introduced by a
+    change of the code under test is followed too): module-level assignments of list / dict / set displays or of calls
+    other than known immutable constructors, and every name declared `global` inside a function."""
+    import ast
+
+    names = set()
+    for dirpath, _dirs, files in os.walk(pkg):
+        for fn in files:
+            if not fn.endswith(".py"):
+                continue
+            try:
+                tree = ast.parse(open(os.path.join(dirpath, fn), encoding="utf-8").read())
+            except (OSError, SyntaxError):
+                continue
+            for node in tree.body:
+                targets, val = [], None
+                if isinstance(node, ast.Assign):
+                    targets, val = [t for t in node.targets if isinstance(t, ast.Name)], node.value
+                elif isinstance(node, ast.AnnAssign) and isinstance(node.target, ast.Name) and node.value is not None:
+                    targets, val = [node.target], node.value
+                if not targets:
+                    continue
+                mutable = isinstance(val, (ast.List, ast.Dict, ast.Set, ast.ListComp, ast.DictComp, ast.SetComp))
+                if isinstance(val, ast.Call):
+                    f = val.func
+                    mutable = (f.attr if isinstance(f, ast.Attribute) else getattr(f, "id", "")) not in _IMMUTABLE_CALLS
+                if mutable:
+                    names.update(t.id for t in targets if not t.id.isupper())
+            for node in ast.walk(tree):
+                if isinstance(node, ast.Global):
+                    names.update(node.names)
+    return names - _NOISE
+
 
 def yield_points(src_root):
     """{filename: set(line numbers)} of lines that touch process-global state of the library."""
@@ -46,6 +85,10 @@ def yield_points(src_root):
         return _yield_cache[src_root]
     out = {}
     pkg = os.path.join(src_root, "django_components")
+    import re
+
+    auto = global_state_names(pkg)
+    auto_re = re.compile(r"(?<![\w.])(?:%s)\b" % "|".join(sorted(map(re.escape, auto)))) if auto else None
     for dirpath, _dirs, files in os.walk(pkg):
         for fn in files:
             if not fn.endswith(".py"):
@@ -63,7 +106,7 @@ def yield_points(src_root):
                     continue
                 if rel in WHOLE_FILES:
                     pts.add(i)
-                elif any(k in s for k in KEYWORDS):
+                elif any(k in s for k in KEYWORDS) or (auto_re is not None and auto_re.search(s)):
                     pts.add(i)
             if pts:
                 out[os.path.realpath(path)] = pts
